@@ -417,7 +417,9 @@ def run(ctx):
                   "the group commitment must be the sum of hiding commitments plus the multiscalar product", f.loc)
     f = ctx.anchor(CORE + "aggregate_custom")
     if f:
-        reductions(ctx, f.key, adaptors={}, min_loops=0)
+        # adaptor inventory only: the z-sum is decided below on the reduction view; a blame scan written in place (with its reviewed
+        # early stop) belongs to C04
+        reductions(ctx, f.key, adaptors={}, min_loops=0, only_loops=lambda lp: False)
         v = FnView.get(P, f)
         oks = ok_values(f, v)
         good = False
